@@ -463,7 +463,11 @@ def r5(ctx):
     a = [norm(n) for n in walk_own(pu.node) if isinstance(n, (ast.Assign, ast.AugAssign))]
     b = [norm(n) for n in walk_own(rc.node) if isinstance(n, (ast.Assign, ast.AugAssign, ast.Return))]
     n_ = rc.params[1]
-    ctx.check(a == ["self.buf += %s" % pu.params[1]] and b == ["data = self.buf[:%s]" % n_, "self.buf = self.buf[%s:]" % n_, "return data"], "C18.R5", rc,
+    # by value: recv returns the first n buffered bytes and leaves the rest, however the two slices are bound
+    rp = sym_paths(rc)
+    ok_rc = rp is not None and len(rp) == 1 and rp[0][2] == "self.buf[:%s]" % n_ and rp[0][1].get("self.buf") == "self.buf[%s:]" % n_ \
+        and not rp[0][1].get("#effects")
+    ctx.check(a == ["self.buf += %s" % pu.params[1]] and ok_rc, "C18.R5", rc,
               "(c) the buffer is FIFO: _push appends, recv removes a prefix", witness={"_push": a, "recv": b})
     # each complete frame is handed to the endpoint exactly once
     hf2 = [cc for cc in calls_named(hd, "_handleFrame")]
@@ -471,7 +475,29 @@ def r5(ctx):
     if ok:
         hfn = ctx.fn("http_server:WebSocketTemporaryHandler._handleFrame")
         cb = [cc for cc in calls_named(hfn, "callback") if norm(cc.func) == "self._endpt.callback"]
-        ok = len(cb) == 1 and [norm(x) for x in cb[0].args] == ["self", "frame.flags.opcode", "frame.payload"] and not any(isinstance(p, (ast.For, ast.While)) for p in _parents(cb[0], hfn.node))
+        ok = len(cb) == 1 and not any(isinstance(p, (ast.For, ast.While)) for p in _parents(cb[0], hfn.node))
+        # by value, per path: the endpoint gets (handler, the frame's opcode, what frame.payload holds at that point)
+        hp_ = sym_paths(hfn)
+        ok = ok and hp_ is not None
+        fr = hfn.params[1]
+        n_called = 0
+        for (conds_, env_, ret_) in (hp_ or []):
+            eff = env_.get("#effects", "")
+            calls_ = [x for x in eff.split(";") if x.startswith("self._endpt.callback(")]
+            if ret_.startswith("#raise") and not calls_:
+                continue
+            if len(calls_) != 1:
+                ok = False
+                continue
+            n_called += 1
+            try:
+                ce = ast.parse(calls_[0], mode="eval").body
+            except SyntaxError:
+                ok = False
+                continue
+            want = ["self", "%s.flags.opcode" % fr, env_.get("%s.payload" % fr, "%s.payload" % fr)]
+            ok = ok and isinstance(ce, ast.Call) and [norm(x) for x in ce.args] == want and not ce.keywords
+        ok = ok and n_called >= 1
     else:
         cb = [cc for cc in calls_named(hd, "callback") if norm(cc.func) == "self._endpt.callback"]
         ok = len(cb) == 1
